@@ -23,6 +23,19 @@ modes
              {op: "sqlite", testing, custom, close}         the call under test, observed as in `migrate`,
                                                             plus the directory listing / legacy fingerprints
                                                             right before and right after this step
+             {op: "use", kind: "sqlite" | "memory" | "peewee", testing, file, via, name, target, calls, close}
+                                                            (round 3) ordinary USE of a store in the same process:
+                                                            either a store opened by this step (sqlite / peewee on a
+                                                            file outside the data dir, memory), remembered under
+                                                            `name`, or (`target`) a store an earlier step opened and
+                                                            left open under that name; `calls` are symbolic ops as in
+                                                            `build` plus the reads ["buckets"], ["get_metadata", b],
+                                                            ["get_events", b, limit], ["get_eventcount", b],
+                                                            ["get_event", b, k]; via "datastore": the store is opened
+                                                            by Datastore(cls, testing, ..) and called through
+                                                            Datastore / Bucket methods.  Never judged itself.
+           A sqlite step may carry `name` (so that a later use step can address the store it left open) and
+           via "datastore" (the construction under test is done by Datastore(SqliteStorage, testing=..)).
            -> one result per step.
 
 The symbolic op ["insert_gen", bucket, spec] is expanded by harness.c14_gen.expand_events (large buckets).
@@ -100,6 +113,22 @@ def apply_sym(st, op):
         elif name == "insert":
             conc = op
             st.insert_one(op[1], mk_ev(op[2]))
+        elif name == "buckets":
+            conc = op
+            st.buckets()
+        elif name == "get_metadata":
+            conc = op
+            st.get_metadata(op[1])
+        elif name == "get_events":
+            conc = op
+            st.get_events(op[1], op[2] if len(op) > 2 else -1)
+        elif name == "get_eventcount":
+            conc = op
+            st.get_eventcount(op[1])
+        elif name == "get_event":
+            ids = live_ids(st, op[1])
+            conc = ["get_event", op[1], ids[op[2] % len(ids)] if ids else 1]
+            st.get_event(op[1], conc[2])
         elif name in ("delete", "replace"):
             ids = live_ids(st, op[1])
             if not ids:
@@ -177,6 +206,50 @@ def mode_build(req):
     return out
 
 
+class ViaDatastore:
+    """The storage vocabulary of apply_sym spoken through the public layer: Datastore / Bucket methods."""
+
+    def __init__(self, ds):
+        self.ds = ds
+
+    def buckets(self):
+        return self.ds.buckets()
+
+    def create_bucket(self, b, ty, cl, ho, created, name=None, data=None):
+        import iso8601
+        return self.ds.create_bucket(b, ty, cl, ho, created=iso8601.parse_date(created), name=name, data=data)
+
+    def update_bucket(self, b, ty=None, cl=None, ho=None, name=None, data=None):
+        return self.ds.update_bucket(b, type_id=ty, client=cl, hostname=ho, name=name, data=data)
+
+    def delete_bucket(self, b):
+        return self.ds.delete_bucket(b)
+
+    def get_metadata(self, b):
+        return self.ds[b].metadata()
+
+    def insert_one(self, b, e):
+        return self.ds[b].insert(e)
+
+    def insert_many(self, b, evs):
+        return self.ds[b].insert(list(evs))
+
+    def delete(self, b, i):
+        return self.ds[b].delete(i)
+
+    def replace(self, b, i, e):
+        return self.ds[b].replace(i, e)
+
+    def get_events(self, b, limit=-1):
+        return self.ds[b].get(limit)
+
+    def get_event(self, b, i):
+        return self.ds[b].get_by_id(i)
+
+    def get_eventcount(self, b):
+        return self.ds[b].get_eventcount()
+
+
 class _Capture(logging.Handler):
     def __init__(self):
         super().__init__(level=logging.DEBUG)
@@ -225,7 +298,15 @@ def open_sqlite(req, close=True, keep=None):
         path = os.path.join(req["xdg"], req["custom"])
     try:
         try:
-            st = SqliteStorage(testing=req["testing"], filepath=path)
+            if req.get("via") == "datastore":
+                # the way a program constructs the store
+                from aw_datastore import Datastore, get_storage_methods
+                ds = Datastore(get_storage_methods()["sqlite"], testing=req["testing"], **({"filepath": path} if path else {}))
+                st = ds.storage_strategy
+                if keep is not None:
+                    keep.append(ds)
+            else:
+                st = SqliteStorage(testing=req["testing"], filepath=path)
         finally:
             os.listdir = real_listdir
     except Exception as ex:  # noqa: BLE001
@@ -265,6 +346,7 @@ def mode_session(req):
     _logging_setup()
     keep = []            # objects stay referenced until the interpreter exits
     left_open = []
+    named = {}           # name -> (storage object, result record of the sqlite step that opened it | None)
     out = []
     for step in req["steps"]:
         if step["op"] == "peewee":
@@ -288,16 +370,21 @@ def mode_session(req):
             before = legacy_prints(req["xdg"])
             lst = listing(req["xdg"])
             n_kept = len(keep)
-            r = open_sqlite({"xdg": req["xdg"], "testing": step["testing"], "custom": step.get("custom")},
+            r = open_sqlite({"xdg": req["xdg"], "testing": step["testing"], "custom": step.get("custom"),
+                             "via": step.get("via")},
                             close=bool(step.get("close")), keep=keep)
             r["op"] = "sqlite"
-            if len(keep) > n_kept:
+            if len(keep) > n_kept and r["exc"] is None and not step.get("close"):
                 left_open.append((r, keep[-1]))
+                if step.get("name"):
+                    named[step["name"]] = (keep[-1], r)
             r["listing_before"] = lst
             r["before"] = before
             r["after"] = legacy_prints(req["xdg"])
             r["listing_after"] = listing(req["xdg"])
             out.append(r)
+        elif step["op"] == "use":
+            out.append(use_step(req["xdg"], step, named, keep))
         else:
             raise RuntimeError("bad step " + str(step))
     # the stores that were left open, read once more after everything else has happened in this process
@@ -307,6 +394,62 @@ def mode_session(req):
         except Exception as ex:  # noqa: BLE001
             r["final"] = {"exc": type(ex).__name__}
     return out
+
+
+def use_step(xdg, step, named, keep):
+    """ordinary use of a store in this process (never the call under test)"""
+    r = {"op": "use", "exc": None, "errs": [], "skipped": False}
+    rec = None
+    try:
+        if step.get("target") is not None:
+            if step["target"] not in named:           # the step that opened it is gone (shrinking) or failed
+                r["skipped"] = True
+                return r
+            st, rec = named[step["target"]]
+        else:
+            from aw_datastore.storages import MemoryStorage, PeeweeStorage, SqliteStorage
+            kind = step.get("kind", "sqlite")
+            cls = {"sqlite": SqliteStorage, "memory": MemoryStorage, "peewee": PeeweeStorage}[kind]
+            kw = {}
+            if kind != "memory":
+                kw["filepath"] = os.path.join(xdg, step.get("file") or ("used-" + kind + ".db"))
+            if step.get("via") == "datastore":
+                from aw_datastore import Datastore
+                ds = Datastore(cls, testing=bool(step.get("testing", True)), **kw)
+                keep.append(ds)
+                st = ds.storage_strategy
+            else:
+                st = cls(testing=bool(step.get("testing", True)), **kw)
+            keep.append(st)
+            if step.get("name"):
+                named[step["name"]] = (st, None)
+        face = st
+        if step.get("via") == "datastore":
+            from aw_datastore import Datastore
+            ds = next((k for k in keep if isinstance(k, Datastore) and k.storage_strategy is st), None)
+            if ds is None:                             # a store that was opened directly: wrap the class around it
+                ds = Datastore(lambda testing: st, testing=getattr(st, "testing", True))
+                keep.append(ds)
+            face = ViaDatastore(ds)
+        for op in step.get("calls", []):
+            _, err = apply_sym(face, op)
+            r["errs"].append(err)
+        if rec is not None:
+            # a store that an earlier construction left open was written through its own API: what it must
+            # hold at the end of the process is what it holds now
+            rec["expected_final"] = dump_store(st)
+        if step.get("close") and rec is None:
+            if hasattr(st, "conn"):
+                st.commit()
+                st.conn.close()
+            elif hasattr(st, "db") and hasattr(st.db, "close"):
+                st.db.close()
+            for k, v in list(named.items()):
+                if v[0] is st:
+                    del named[k]
+    except Exception as ex:  # noqa: BLE001 -- the use is context, its failures are not judged
+        r["exc"] = type(ex).__name__ + ": " + str(ex)[:160]
+    return r
 
 
 def mode_dump(req):
